@@ -425,7 +425,8 @@ func ruleIncrementBase(c *core.Ctx) {
 				}
 			}
 		}
-		o.Require(n >= 3, "expected the three readers (Lookup, All, reverse lookup) to call nextString, found %d calls", n)
+		// (the three readers may share one helper that makes the call)
+		o.Require(n >= 1, "no reader of a ToUnicode range calls nextString any more (found %d calls)", n)
 	})
 }
 
